@@ -159,6 +159,18 @@ def impl_case(args) -> dict:
             out["linted"] = got
             out["dups"] = len(vs) - len(got)
             out["exit"] = code
+        if case.get("other_config"):
+            # the run is told to use another configuration file (beside the project, without an ignore list): the list of the
+            # project's own .thailint.yaml is then not the configuration in use
+            other = Path(root) / f"p{idx}" / "ci.yaml"
+            other.write_text(PROBE_CFG)
+            a5 = ["--project-root", str(proj), "file-placement", "--config", str(other), "--format", "json"] + ([] if case["recursive"] else ["--no-recursive"]) + [target]
+            code5, stdout5 = core.run_cli(a5, cwd=cwd)
+            vs5 = core.violations_json(stdout5)
+            if vs5 is None:
+                out["errors"].append(f"--config ci.yaml: exit {code5}: {stdout5[:300]}")
+            else:
+                out["linted_other_config"] = sorted({os.path.relpath(_abs(v["file_path"]), target_abs) for v in vs5})
         if case.get("parallel"):
             # second probe through a command that has --parallel: magic-numbers sees the .py files of the linted set
             a2 = (["--project-root", str(proj), "magic-numbers", "--format", "json", "--parallel"]
@@ -243,6 +255,8 @@ def gen_case(rng, excl_dirs, excl_exts):
     if case["parallel"] and not rel:
         # enough files for the process pool to be used (2 x workers)
         tree.append({"d": "bulk", "k": [{"f": f"b{i:02d}.py"} for i in range(16)]})
+    if carrier == "yaml" and case["forms"] and rng.random() < 0.5:
+        case["other_config"] = True
     top_dirs = [n["d"] for n in tree if "d" in n]
     if case["spelling"] == "dotdot":
         if top_dirs:
@@ -293,6 +307,10 @@ def evaluate(cases, res: core.Result, procs=16):
                      "rel": c["rel"], "explicit": c["explicit"], "targets": c.get("targets", [])})
     drv = core.Driver()
     leans = drv.batch(reqs)
+    # the same run under a configuration without an ignore list
+    bare = {i: r for i, r in enumerate(reqs) if cases[i].get("other_config")}
+    for i, l0 in zip(bare, drv.batch([{**r, "forms": []} for r in bare.values()])):
+        leans[i]["linted_no_list"] = sorted(l0["linted"])
     drv.close()
     try:
         if True:
@@ -327,6 +345,12 @@ def evaluate(cases, res: core.Result, procs=16):
                     problems.append(f"--parallel run (magic-numbers probe) linted {im['linted_py_parallel']}, model {want}")
                     if im["linted_py_parallel"] != [p for p in spec if p.endswith(SRC)]:
                         fails = True
+            if "linted_other_config" in im:
+                res.bump("other configuration in use", "differs from own list" if l["linted_no_list"] != model else "same set")
+                if im["linted_other_config"] != l["linted_no_list"]:
+                    problems.append(f"run with --config <file without ignore list>: implementation-only {sorted(set(im['linted_other_config']) - set(l['linted_no_list']))}, "
+                                    f"model-only {sorted(set(l['linted_no_list']) - set(im['linted_other_config']))} (the project's own .thailint.yaml lists {l['patterns']})")
+                    fails = True
             if "multi" in im:
                 res.bump("several targets", f"{len(c['targets'])} targets, " + ("recursive" if c["recursive"] else "--no-recursive"))
                 want = sorted(l["multi"])
